@@ -111,10 +111,34 @@ def run(ctx):
         ppp = np.array(masks[int(rng.integers(0, len(masks)))])
         as_vector = (R.shape[0] == 1 and rng.random() < 0.5)
         arg = R[0].copy() if as_vector else R.copy()
-        info = lambda: {"H": H, "ppp": ppp, "R": R[:6], "cell": kind, "mode": mode}  # noqa: E731
-        ok, out = ctx.call("remove_pbc", remove_pbc, arg, H.copy(), ppp.copy(), data=info)
+        # the same values in the representations real callers hand over: read-only (snapshot arrays from pandas / memmap),
+        # Fortran order, strided column views, integer-valued displacements stored as integers, masks as list / tuple / bool
+        rep = str(rng.choice(["plain", "plain", "plain", "readonly", "fortran", "strided", "intvalues", "listmask", "boolmask"]))
+        Harg, parg = H.copy(), ppp.copy()
+        if rep == "readonly":
+            for a_ in (arg, Harg, parg):
+                a_.setflags(write=False)
+        elif rep == "fortran" and arg.ndim == 2:
+            arg, Harg = np.asfortranarray(arg), np.asfortranarray(Harg)
+        elif rep == "strided" and arg.ndim == 2:
+            big = np.full((arg.shape[0], 2 * d + 1), 3.25)
+            big[:, 1::2] = arg
+            arg = big[:, 1::2]
+        elif rep == "intvalues" and kind == "ortho":
+            R = np.rint(R)
+            arg = (R[0] if as_vector else R).astype(np.int64)
+        elif rep == "listmask":
+            parg = [int(v) for v in ppp] if rng.random() < 0.5 else tuple(int(v) for v in ppp)
+        elif rep == "boolmask":
+            parg = ppp.astype(bool)
+        before = (np.array(arg, copy=True), Harg.copy(), np.array(parg, copy=True))
+        info = lambda: {"H": H, "ppp": ppp, "R": R[:6], "cell": kind, "mode": mode, "representation": rep}  # noqa: E731
+        ok, out = ctx.call("remove_pbc", remove_pbc, arg, Harg, parg, data=info)
         if not ok:
             continue
+        ctx.check("inputs_untouched", np.array_equal(before[0], np.asarray(arg)) and np.array_equal(before[1], Harg) and
+                  np.array_equal(before[2], np.asarray(parg)), "remove_pbc/input_modified", "an argument array was modified in place", info)
+        ctx.count("rep_" + rep)
         out = np.atleast_2d(np.asarray(out, float))
         Hinv = np.linalg.inv(H)
         cond = np.linalg.cond(H)
